@@ -326,6 +326,38 @@ theorem C14_one_cache_counterexample :
      w.handles.map (mapOfPool w) = [none, some 1]) := by
   decide
 
+
+open SCS in
+/-- F14d witness (kernel-checked): two goroutines call `Session(&Session{PrepareStmt: true})` on a database opened WITHOUT
+    `Config.PrepareStmt` before any cache is registered; both `Load`s miss, both create and `Store`: two cache objects,
+    the two handles work with different ones (the second `Store` overwrites the first). -/
+theorem C14_first_session_race_counterexample :
+    (let s := crun {} [.load 0, .load 1, .build 0, .build 1]
+     s.nC = 2 ∧ s.got 0 = some 0 ∧ s.got 1 = some 1 ∧ s.store = some 1) := by
+  decide
+
+open SCS in
+/-- ONE CACHE under concurrent session creation, outside the F14d pattern: once a cache is registered (the database was
+    opened with `Config.PrepareStmt`, or a first prepared session has been obtained), any number of goroutines calling
+    `Session(PrepareStmt)` afterwards, in ANY interleaving of their `Load` / create-and-`Store` steps, all get that
+    cache and no further cache object is allocated. -/
+theorem C14_first_session_partial (c n : Nat) (s0 : CState) (sched : List CAct)
+    (hstore : s0.store = some c) (hn : s0.nC = n) (hfresh : ∀ g, s0.loaded g = none ∧ s0.got g = none) :
+    let s := crun s0 sched
+    s.nC = n ∧ s.store = some c ∧ ∀ g c', s.got g = some c' → c' = c := by
+  intro s
+  have hI : CInv c n s := crun_inv c n sched s0 ⟨hstore, hn, fun g => Or.inl (hfresh g).1, fun g => Or.inl (hfresh g).2⟩
+  refine ⟨hI.nC, hI.store, fun g c' hg => ?_⟩
+  rcases hI.got g with h | h
+  · rw [h] at hg; cases hg
+  · rw [h] at hg; cases hg; rfl
+
+open SCS in
+/-- non-vacuity: after one completed prepared session three concurrent ones share its cache -/
+example : (let s0 := crun {} [.load 9, .build 9]
+           let s := crun { store := s0.store, nC := s0.nC } [.load 0, .load 1, .build 1, .load 2, .build 0, .build 2]
+           s.nC = 1 ∧ s.got 0 = some 0 ∧ s.got 1 = some 0 ∧ s.got 2 = some 0) := by decide
+
 /-! ### findings: concrete schedules on which the full statement fails (kernel-checked) -/
 
 /-- F14b witness 1 (late delete after a FAILED prepare): a transaction prepares text 0; a non-transaction request
